@@ -30,6 +30,8 @@ Definition chan_col (ch : nat) (obs : list (list Q)) : list Q := map (fun o => n
 
 Definition obs_guard (training norm_obs : bool) : bool := training && norm_obs.
 
+Definition idq_ (x : Q) : Q := x.
+
 (* `upd` = RunningMeanStd.update (Model.RunningMoments.update, or its Qred variant when executing) *)
 Section WithUpdate.
 Context (upd : rms -> list Q -> rms) (red : Q -> Q).
@@ -182,3 +184,28 @@ Definition rms_trace (eps : Q) (bs : list (list Q)) (others : list (list (list Q
   let a' := fold_left (fun acc obs => let o := fold_left update_red obs (rms_init eps) in
                          let c := rms_combine acc o in mk_rms (Qred (r_mean c)) (Qred (r_var c)) (Qred (r_count c))) others a in
   rms_close tol9 tol9 a' im iv ic.
+
+(* ---- what step_wait / reset return (extension): observations and terminal observations go through ONE function,
+   normalize_obs, with the statistics AFTER this operation's update; ss = sqrt(var + eps) per channel (hints) ---- *)
+Fixpoint norm_vec (p : vnp) (norm_obs : bool) (chans : list bool) (ms : list rms) (ss x : list Q) : list Q :=
+  match chans, ms, ss, x with
+  | c :: chans', m :: ms', s :: ss', v :: x' =>
+      (if norm_obs && c then normalize_s v (r_mean m) s (p_clip_obs p) else v) :: norm_vec p norm_obs chans' ms' ss' x'
+  | _, _, _, _ => []
+  end.
+
+Definition normalize_obs_model (p : vnp) (st : vn) (ss x : list Q) : list Q :=
+  norm_vec p (v_norm_obs st) (p_chans p) (v_obs_rms st) ss x.
+
+(* a terminal observation is transformed only for a sub-environment that is done and carries one *)
+Definition term_out (p : vnp) (st : vn) (ss : list Q) (done : bool) (t : option (list Q)) : option (list Q) :=
+  if negb done then t else match t with Some x => Some (normalize_obs_model p st ss x) | None => None end.
+
+Record step_out := mk_out { o_obs : list (list Q); o_term : list (option (list Q)); o_rews : list Q }.
+
+Definition step_outputs (p : vnp) (st : vn) (obs : list (list Q)) (rews : list Q) (dones : list bool)
+           (terms : list (option (list Q))) (ss : list Q) (sr : Q) : vn * step_out :=
+  let st' := vn_op update idq_ p st (OStep obs rews dones) in
+  (st', mk_out (map (normalize_obs_model p st' ss) obs)
+               (map (fun dt => term_out p st' ss (fst dt) (snd dt)) (combine dones terms))
+               (map (fun r => if v_norm_reward st' then normalize_reward_s r sr (p_clip_rew p) else r) rews)).
